@@ -42,12 +42,13 @@ static void run2(void *out) { run(out, 2); }
 static int add(char *d, int n, const char *s) { int l = strlen(s); memcpy(d + n, s, l); return n + l; }
 static int addn(char *d, int n, const char *s, int l) { memcpy(d + n, s, l); return n + l; }
 /* expand #t #1 #2 in a key-sequence template */
+static const char *exp_start = "";
 static void expand(char *d, const char *f, const char *t, const char *a, const char *b)
 {
 	int n = 0;
 	for (; *f; f++) {
 		if (*f == '#' && f[1]) {
-			const char *r = f[1] == 't' ? t : f[1] == '1' ? a : b;
+			const char *r = f[1] == 't' ? t : f[1] == '1' ? a : f[1] == 's' ? exp_start : b;
 			n = add(d, n, r);
 			f++;
 		} else {
@@ -98,10 +99,13 @@ void harness(void)
 			{"\"ayw\"ap", "ywp"}, {"\"ad0\"aP", "d0P"}, {"\"adfx\"aP", "dfxP"},
 			{"i#1#2\010\033", "i#1\033"}, {"i#1 #2\027\033", "i#1 \033"}, {"i#1#2\025\033", "i\033"},
 			{"a#1#2\010\010#2\033", "a#2\033"}, {"A#1\010#2\033", "$a#2\033"}, {"o#1#2\010\033", "o#1\033"},
+			/* a character-wise put leaves the cursor on the last character put, as typing the same text with a does
+			 * (the text is typed on a scratch line, yanked from its first non-blank (autoindent) into a register, the scratch line undone) */
+			{"O#1#2\033^\"ay$u#s\"ap", "a#1#2\033"}, {"O#1#2\033^\"ay$u#s2\"ap", "a#1#2#1#2\033"},
 		};
 		int p = symx_u8("pair"), cnt;
 		char a[64], b[64], cp[4] = "";
-		symx_assume(p < 20);
+		symx_assume(p < 22);
 		p = symx_conc(p);
 		/* typed characters are symbolic only where the pair types something */
 		if (p >= 3 && p <= 5)
@@ -113,6 +117,7 @@ void harness(void)
 		cnt = p == 2 ? symx_conc(symx_u8("count") % 3) : 0;
 		if (cnt)		/* a count in front of D / d$ (counts of x and dl differ legitimately at the line end) */
 			cp[0] = '1' + cnt;
+		exp_start = start;
 		expand(a, pairs[p][0], txt, c1, c2);
 		expand(b, pairs[p][1], txt, c1, c2);
 		for (i = 0; i < 2; i++) {
@@ -120,7 +125,7 @@ void harness(void)
 			nk[i] = add(keys[i], nk[i], cp);
 			nk[i] = add(keys[i], nk[i], i ? b : a);
 			/* marker at the cursor; the unnamed register is revealed too unless the pair names a register (neatvi then leaves the unnamed one alone) */
-			nk[i] = add(keys[i], nk[i], p >= 7 && p <= 13 ? "\033iM\033:w\n:q\n" : "\033iM\033G$p:w\n:q\n");
+			nk[i] = add(keys[i], nk[i], (p >= 7 && p <= 13) || p >= 20 ? "\033iM\033:w\n:q\n" : "\033iM\033G$p:w\n:q\n");
 		}
 		symx_observe_mem("keysA", keys[0], nk[0]);
 		symx_isolated(run0, &r0, sizeof(r0));
